@@ -19,7 +19,7 @@ CONSTANTS MaxFeatures,     \* optional features per program
           DevF3, DevF4, DevF5, DevSkip,
           Wrappers         \* {"cvxpy"} or {"cvxpy", "mosek"}
 LmiSize(code) == CASE code = "L1" -> 1 [] code = "S3" -> 3 [] OTHER -> 2
-ConsCodes == {"pi", "pe", "pg", "fi", "ci"}
+ConsCodes == {"pi", "pe", "pg", "pm", "pd", "fi", "ci"}
 LmiCodes == {"S2", "D2", "L1", "N2", "S3", "F2"}
 ClassLmis(c) == IF c \in {4, 6, 7} THEN 1 ELSE IF c = 8 THEN 2 ELSE 0
 VARIABLES prog, solves, phase, epoch, sent, native, dualpos, cache, nClassLmi, nPartRows, hist
@@ -47,7 +47,7 @@ Feature ==
 Rep(x, n) == [i \in 1..n |-> x]
 Sc(src) == [src |-> src, k |-> "sc", n |-> 1]
 Lm(src, n) == [src |-> src, k |-> "lmi", n |-> n]
-PepCons(p) == SelectSeq(p.ucons, LAMBDA c : c \in {"pi", "pe", "pg"})
+PepCons(p) == SelectSeq(p.ucons, LAMBDA c : c \in {"pi", "pe", "pg", "pm", "pd"})
 FunCons(p) == SelectSeq(p.ucons, LAMBDA c : c \in {"fi", "ci"})
 PepLmis(p) == SelectSeq(p.lmis, LAMBDA c : c # "F2")
 FunLmis(p) == SelectSeq(p.lmis, LAMBDA c : c = "F2")
@@ -74,7 +74,7 @@ Walk(s, k, counter) == IF k > Len(s) THEN <<>> ELSE
                                  ELSE counter + 1 + (IF DevSkip THEN s[k].n * s[k].n - 1 ELSE s[k].n * s[k].n))
 Edits == [metric |-> Cardinality({i \in 1..Len(solves) : solves[i].edit = "metric"}),
           lmi |-> Cardinality({i \in 1..Len(solves) : solves[i].edit = "lmi"})]
-SolveOpts == [wrapper : Wrappers, mode : {"dual", "primal"}, heur : {"none", "trace", "logdet1"},
+SolveOpts == [wrapper : Wrappers, mode : {"dual", "primal"}, heur : {"none", "trace", "logdet1", "logdet2"},
               edit : {"none", "init", "metric", "lmi", "infeasible", "feasible-again"}, verbose : {0, 1}]
 Infeasible(sv) == Cardinality({i \in 1..Len(sv) : sv[i].edit = "infeasible"}) > Cardinality({i \in 1..Len(sv) : sv[i].edit = "feasible-again"})
 Solve ==
